@@ -110,6 +110,7 @@ JudgeExt(e) ==
                        ELSE IsSome(e.out) /\ XCanon(f, e.out[2]) /\ XMul(f, e.a, e.out[2]) = XOne(f)
     [] e.fn = "pow" -> e.out = XPow(f, e.a, e.e)
     [] e.fn = "eq"  -> e.out = (e.a = e.b)
+    [] e.fn = "ne"  -> e.out = (e.a # e.b)
     [] e.fn = "is_zero" -> e.out = (e.a = XZero(f))
     [] e.fn = "frob" -> e.out = XFrob(f, e.a, e.k)
     [] e.fn = "mul_by_nonresidue" -> e.out = (IF f = "Fq2" THEN F2MulXi(e.a) ELSE F6MulV(e.a))
